@@ -732,7 +732,10 @@ class Flow:
     def _kill_call(self, facts, inst):
         argroots = set()
         for a in inst.args:
-            r = vf.root_of(self.expr(a))
+            # the local object an argument points into - not the object a passed *value* was loaded from
+            r = self.expr(a)
+            while isinstance(r, tuple) and r and r[0] in ("fld", "idx", "ptradd"):
+                r = r[1]
             if isinstance(r, tuple) and r[0] == "alloca":
                 argroots.add(r[1])
         out = {}
